@@ -1,37 +1,23 @@
 import Jwt.Bytes
 import Jwt.Generated.Base64Tables
+import Jwt.Generated.Base64Code
 /-!
 # Literal model of `libjwt/base64.c` and of `jwt_base64uri_encode/decode` (`libjwt/jwt.c`)
 
 The tables, the pad/range constants and the two size macros come from
-`Jwt/Generated/Base64Tables.lean` (regenerated from the source on every run).
-The control flow below is written by hand, statement by statement after the C,
-and tied to the code by the `codec` correspondence suite.
+`Jwt/Generated/Base64Tables.lean`, the arms of the three `switch` statements from
+`Jwt/Generated/Base64Code.lean` (both regenerated from the source on every run).
+The loops around the arms are written by hand, statement by statement after the C (the
+translator checks that the C loops still have that shape), and tied to the code by the
+`codec` correspondence suite.
 -/
 namespace Jwt.Base64
 open Jwt Jwt.Generated
 
-/-- `base64en[i]` (an out-of-range index cannot happen: see `TableFacts.enIdx_lt`) -/
-def enAt (i : UInt8) : UInt8 := base64en.getD i.toNat 0
-/-- `base64de[i]` -/
-def deAt (i : UInt8) : UInt8 := base64de.getD i.toNat 255
+/-! ## `base64_encode`: three-state machine, `out[j++] = …`
 
-/-! ## `base64_encode`: three-state machine, `out[j++] = …` -/
-
-/-- one iteration of the `for` loop: state `s`, previous byte `l`, current byte `c`;
-returns the next state and the bytes appended to `out` -/
-def encStep (s : Nat) (l c : UInt8) : Nat × Bytes :=
-  match s with
-  | 0 => (1, [enAt ((c >>> 2) &&& 0x3F)])
-  | 1 => (2, [enAt (((l &&& 0x3) <<< 4) ||| ((c >>> 4) &&& 0xF))])
-  | _ => (0, [enAt (((l &&& 0xF) <<< 2) ||| ((c >>> 6) &&& 0x3)), enAt (c &&& 0x3F)])
-
-/-- the trailing `switch (s)` -/
-def encTail (s : Nat) (l : UInt8) : Bytes :=
-  match s with
-  | 1 => [enAt ((l &&& 0x3) <<< 4), pad, pad]
-  | 2 => [enAt ((l &&& 0xF) <<< 2), pad]
-  | _ => []
+`enAt`/`deAt` are in `Jwt/Base64Prelude.lean`; the arms `encStep`, `encTail` (and `decStep` below) are
+**generated** from `base64.c` (`Jwt/Generated/Base64Code.lean`). -/
 
 def encLoop : Bytes → Nat → UInt8 → Bytes
   | [], s, l => encTail s l
@@ -48,27 +34,6 @@ inductive DecRes where
   | reject                    -- `return 0`
   | ok (j : Nat) (out : Bytes) -- `return j` with the buffer contents
   deriving DecidableEq, Repr
-
-/-- the body of `switch (i & 0x3)` for table value `v`; `none` = out of bounds -/
-def decStep (i j : Nat) (out : Bytes) (v : UInt8) : Option (Nat × Bytes) :=
-  match i &&& 0x3 with
-  | 0 => do
-    let o ← bufSet out j ((v <<< 2) &&& 0xFF)
-    pure (j, o)
-  | 1 => do
-    let x ← out[j]?
-    let o ← bufSet out j (x ||| ((v >>> 4) &&& 0x3))
-    let o ← bufSet o (j + 1) ((v &&& 0xF) <<< 4)
-    pure (j + 1, o)
-  | 2 => do
-    let x ← out[j]?
-    let o ← bufSet out j (x ||| ((v >>> 2) &&& 0xF))
-    let o ← bufSet o (j + 1) ((v &&& 0x3) <<< 6)
-    pure (j + 1, o)
-  | _ => do
-    let x ← out[j]?
-    let o ← bufSet out j (x ||| v)
-    pure (j + 1, o)
 
 /-- the `for (i = j = 0; i < inlen; i++)` loop. `in[i]` is a (signed) `char`: bytes ≥ 128 are
 negative and fail `in[i] < BASE64DE_FIRST`; on `UInt8` they fail `c > deLast` instead
